@@ -413,6 +413,37 @@ func runC09(c *core.Ctx) {
 					}
 				}
 			}
+			// ... or the error is made behind the comparison and returned once at the end (a named result, a collected err)
+			if errIdx >= 0 {
+				var flat []ssa.Value
+				var walk func(v ssa.Value, d int)
+				walk = func(v ssa.Value, d int) {
+					if phi, ok := core.Strip(v).(*ssa.Phi); ok && d < 6 {
+						for _, ev := range phi.Edges {
+							walk(ev, d+1)
+						}
+						return
+					}
+					flat = append(flat, v)
+				}
+				for _, rv := range core.ResultValues(ret, errIdx) {
+					walk(rv, 0)
+				}
+				for _, rv := range flat {
+					in, ok := core.Strip(rv).(ssa.Instruction)
+					if !ok || core.IsNilConst(rv) {
+						continue
+					}
+					switch in.(type) {
+					case *ssa.Call, *ssa.MakeInterface:
+						for e := range comparesCounter(fin) {
+							if core.EdgeDominates(e, in.Block()) {
+								canFail = true
+							}
+						}
+					}
+				}
+			}
 		}
 		c.Check(canFail, name+"#Finish-lower-bound", p.Pos(fin.Pos()), "Finish refuses an entry with too few values", "AssembleValue counts the values of the entry and refuses them beyond a constant number, but Finish never looks at the counter: an entry with fewer values than the representation requires (a listpairs pair with only a key, or empty) is accepted and silently dropped")
 	}
